@@ -14,6 +14,7 @@ import (
 	"strings"
 	"syscall"
 	"time"
+	"verifharness/lib"
 )
 
 var c05Names = []string{"a", "b", "c", "d"}
@@ -68,6 +69,20 @@ var c05Old = time.Unix(1_000_000_000, 0)
 // would interpret rel with the process sitting in root.
 func c05Join(root, rel string) string { return root + "/" + rel }
 
+// c05LinkText is the text of a symbolic link whose description is t: relative texts as they are; an absolute text
+// ("/nonexistent-vh-c05/x": a link that leads nowhere) is placed INSIDE the scratch directory root lies in — the
+// same text for both twin trees, which share that directory — so that no link of a tree points outside the
+// scratch area, whatever a server under test makes of it.
+func c05LinkText(root, t string) string {
+	if !strings.HasPrefix(t, "/") {
+		return t
+	}
+	if sr := lib.ScratchRootOf(filepath.Clean(root)); sr != "" {
+		return sr + t
+	}
+	return filepath.Dir(root) + t
+}
+
 // c05Build applies a seed tree description under root (which must exist and be empty) and ages
 // every non-symlink entry, so that "recent" modification times are those the operations produce.
 // Attributes an entry is to have ALREADY (owner, times) are applied last, with package os, to whatever exists.
@@ -89,7 +104,7 @@ func c05Build(root string, tree []c05Ent) {
 				os.Chmod(p, os.FileMode(e.Mode))
 			}
 		case "sym":
-			t := e.T
+			t := c05LinkText(root, e.T)
 			if e.TAbs {
 				t = c05Join(root, e.T)
 			}
